@@ -433,6 +433,28 @@ func damageBase(en *Env, b int) int {
 				ds = append(ds, dmg{kind: "flip", off: off, bit: r.Intn(8)})
 			}
 		}
+		// runs of zero bytes (a lost sector, a never-written page) that begin at a record start or at a block start
+		starts := []int{}
+		if strings.HasSuffix(tg.name, ".data") {
+			var id int
+			for _, c := range tg.name[:9] {
+				id = id*10 + int(c-'0')
+			}
+			rs, _ := e.ScanFile(src, id, -1)
+			for _, rc := range rs {
+				starts = append(starts, rc.B*h.BlockSize+rc.O)
+			}
+		}
+		for blk := 1; blk*h.BlockSize < len(orig); blk++ {
+			starts = append(starts, blk*h.BlockSize)
+		}
+		for _, st := range starts {
+			for _, ln := range []int{7, 16, 64, h.BlockSize - st%h.BlockSize} {
+				if st+ln <= len(orig) || ln > 64 {
+					ds = append(ds, dmg{kind: "zeros", off: st, data: make([]byte, min(ln, len(orig)-st))})
+				}
+			}
+		}
 		nx := 12
 		if en.Thorough() {
 			nx = 60
@@ -479,7 +501,7 @@ func damageBase(en *Env, b int) int {
 			switch d.kind {
 			case "flip":
 				buf[d.off] ^= 1 << uint(d.bit)
-			case "bytes", "garbage":
+			case "bytes", "garbage", "zeros":
 				for i, x := range d.data {
 					if d.off+i < len(buf) {
 						buf[d.off+i] = x
